@@ -119,6 +119,10 @@ def oracle_query(P, q, d, sel):
             got.append(("T", s.encode()))
     if got != exp_segs or r.absolute != q.absolute:
         return "query %r resolved against %r (segment name %r): got %r expected %r" % (q.encode(), d, sel, got, exp_segs)
+    # idempotence (theorem query_idem): resolving the resolved query again changes nothing
+    out2, r2 = impl_qabs(P, r, d, sel)
+    if out2 != out:
+        return "query %r resolved against %r (segment name %r) is not a fixed point: resolving the result again gives %s instead of %s" % (q.encode(), d, sel, out2, out)
     return None
 
 
